@@ -149,7 +149,8 @@ func genGraph(r *simcore.Rand) *ShareCfg {
 		}
 	}
 	if r.Bool(0.65) && use(1) {
-		form := pick(r, []string{"raw", "fileName", "ssetField", "dirField", "bytesField", "nameRef"})
+		form := pick(r, []string{"raw", "fileName", "ssetField", "dirField", "bytesField", "nameRef",
+			"dirParts", "ssetParts", "symlinkParts", "fileMembers", "fileEntries", "ssetEntries", "dirMembers"})
 		what := pick(r, mentionable)
 		var m int
 		if form == "nameRef" {
